@@ -48,9 +48,23 @@ WRITE_OPS = ['create_rp', 'update_rp', 'delete_rp', 'put_inventories',
              'put_allocations', 'put_allocations', 'post_allocations',
              'post_allocations', 'delete_allocations', 'reshaper', 'reshaper',
              'put_allocations_clear']
+
+
+def b_rename_class(draw, d, prof):
+    """PUT /resource_classes/{name} with a body: the rename of 1.2-1.6."""
+    have = sorted(n for n in d.classes if n.startswith('CUSTOM_'))
+    old = draw(st.sampled_from(have + ['VCPU', 'CUSTOM_PV_NOPE']))
+    new = draw(st.sampled_from(have + ['CUSTOM_PV_REN', 'VCPU', 'DISK_GB']))
+    return gen.R('PUT', '/resource_classes/' + old,
+                 (1, draw(st.integers(2, 6))), {'name': new}, 'rename_class',
+                 [])
+
+
+WRITE_OPS = WRITE_OPS + ['rename_class', 'rename_class']
 PROFILE = machine.Profile('c15', 'C15', ops=[(1, o) for o in WRITE_OPS],
                           oracles=[], nontrivial=lambda *a: False,
-                          defect_rate=1)
+                          defect_rate=1,
+                          builders={'rename_class': b_rename_class})
 
 
 class FaultCapture(logging.Handler):
